@@ -6,6 +6,7 @@ CONSTANTS
   MultiNsPrecheck = "all-first"
   RollbackKinds = "all"
   SchemaListRollback = TRUE
+  RollbackScope = "repository"
 INVARIANT Atomic
 INVARIANT Completes
 CHECK_DEADLOCK FALSE
